@@ -247,3 +247,51 @@ Proof.
     with (BgpModel.lenN (BmpWire.msg_code m :: BmpWire.enc_body m)) by (rewrite !BgpProofs.lenN_cons; lia).
   rewrite read_exact_bytes. reflexivity.
 Qed.
+
+(* ---------- C06 / C07 with the parser instantiated: real octet streams ---------- *)
+(* process_msg never refuses a message (its type code is below 7) *)
+Lemma process_msg_some rid s m : exists s', process_msg rid s m = Some s'.
+Proof.
+  unfold process_msg. replace (msg_type_code m <? 7) with true by (symmetry; apply N.ltb_lt; destruct m; cbn; lia).
+  destruct (sm_step (s_reg s) rid (s_sm s) m) as [[r' sm'] o]. eauto.
+Qed.
+
+(* the session state after a list of messages went through process_msg *)
+Fixpoint msgs_run (rid : N) (s : sess) (ms : list msg) : sess :=
+  match ms with
+  | [] => s
+  | m :: r => match process_msg rid s m with Some s' => msgs_run rid s' r | None => s end
+  end.
+
+(* one iteration of the read loop on the octets of an encoded message: the frame is cut off by
+   its length field, decoded, abstracted and handed to process_msg *)
+Lemma loop_encoded f fixed tl rid m evs s : BmpWire.wf m = true ->
+  loop (S f) wire_msg fixed tl rid (map EByte (BmpWire.encode m) ++ evs) s =
+  match process_msg rid s (abstract m) with
+  | Some s' => loop f wire_msg fixed tl rid evs s'
+  | None => Panic PMetricsIndex evs s
+  end.
+Proof. intros H. cbn [loop]. rewrite bmp_read_encoded, wire_msg_encoded by exact H. reflexivity. Qed.
+
+Lemma loop_encoded_stream ms : forall f fixed rid s, List.forallb BmpWire.wf ms = true -> (length ms < f)%nat ->
+  loop f wire_msg fixed TEof rid (map EByte (concat (map BmpWire.encode ms))) s =
+  Done EndEof [] (msgs_run rid s (map abstract ms)) (cleanup rid (msgs_run rid s (map abstract ms))).
+Proof.
+  induction ms as [|m ms IH]; intros f fixed rid s Hw Hf.
+  - destruct f as [|f]; [inversion Hf|]. reflexivity.
+  - cbn [List.forallb] in Hw. apply andb_prop in Hw as [Hm Hms]. cbn [length] in Hf.
+    destruct f as [|f]; [inversion Hf|]. cbn [map concat mjoin]. rewrite fmap_app, loop_encoded by exact Hm.
+    cbn [msgs_run]. destruct (process_msg_some rid s (abstract m)) as [s' ->]. apply IH; [exact Hms|lia].
+Qed.
+
+(* a connection that delivers the encodings of any well-formed messages and then closes: every
+   message reaches the state machine, in order, and the session ends in the cleanup at end of file *)
+Theorem run_from_encoded_stream fixed rid ms s : List.forallb BmpWire.wf ms = true ->
+  run_from wire_msg fixed TEof rid (map EByte (concat (map BmpWire.encode ms))) s =
+  Done EndEof [] (msgs_run rid s (map abstract ms)) (cleanup rid (msgs_run rid s (map abstract ms))).
+Proof.
+  intros H. unfold run_from. apply loop_encoded_stream; [exact H|].
+  rewrite map_length. clear H. induction ms as [|m ms IH]; [cbn; lia|].
+  cbn [map concat mjoin length]. rewrite app_length.
+  pose proof (BmpWireProofs.encode_len_ge m) as Hge. unfold BgpModel.lenN in Hge. lia.
+Qed.
